@@ -48,7 +48,9 @@ def prelude_canon_source():
 
 def run_items(driver, items, timeout=300):
     """run items in ONE vjanet process (used inside pool workers)"""
-    return _core._run_chunk(vjanet("fast"), driver, items, None, timeout, ())
+    # a tree on which round trips do not terminate would cost a time limit per item: after a few dead workers the rest
+    # of the chunk comes back as SKIPPED (reported as a cap by the callers, the deaths themselves are violations)
+    return _core._run_chunk(vjanet("fast"), driver, items, None, min(timeout, 90), (), _core._Deaths(3))
 
 
 class Viol:
@@ -426,6 +428,9 @@ def graph_shard(arg):
         if out["first"] is None:
             out["first"] = exp
         out["last"] = exp
+        if st == "SKIPPED":
+            out["skipped_after_deaths"] = out.get("skipped_after_deaths", 0) + 1
+            continue
         if st != "OK":
             out["viols"].append(Viol("graph:%s:%s" % (kinds_sig(g), st.lower()),
                                      "round trip of %s: %s %s" % (exp, st, text[:300]),
